@@ -1,4 +1,5 @@
 import JoblibProofs.Lemmas.Tracker
+import JoblibProofs.Lemmas.TrackerClient
 /-!
 # C20 — tracked temporary resources are deleted exactly when their last user is gone
 
@@ -339,5 +340,167 @@ example : classify ([32, 9] ++ cmdStr .register ++ 58 :: nA ++ 58 :: RType.str .
     .req .register .file nA := by decide +kernel
 -- "REGISTER:file": one separator only — the name is empty and the line is a valid request for ""
 example : classify (cmdStr .register ++ 58 :: RType.str .file ++ [10]) = .req .register .file [] := by decide +kernel
+
+/-! ## The client side: who sends which request when
+
+Model: `JoblibModel.TrackerClient` — the main process (`TemporaryResourcesManager`, the reducer, executors and
+pools), the worker processes, the temp root, composed with the tracker above: every line a process writes is read by
+`Tracker.step` before the client looks at the disk again (`send`).  Operations (`Op`): `configure k`, `spawn k`,
+`reduce k array`, `load c i`, `drop i` (a memmap is garbage-collected), `childExit c`, `childKill c`, `terminate k`,
+`abort k`, `execTerminate kill`, `exitParent`, `killParent`, in ANY order and number (`runOps`), then `eof`.
+Quantifier reached: every operation sequence (induction over the list), every configuration (`max_nbytes`, number of
+`Parallel` objects, which of them use the multiprocessing backend), both variants of the code (`Cfg.fix`).
+
+Ghost fields the statements speak about (no influence on the behaviour): `extra` — the files whose extra reference
+the parent holds; `leaked` — registered references nobody will give back (memmaps of killed workers, pickles never
+loaded); `dup` — some clean-up released an extra reference that was not held (F45); `bad` — the monitor: every
+file that left the disk while it had a live user (`applyAction`: a clean-up action of the tracker while
+`liveUsers > 0`; `clientRmtree`: a `shutil.rmtree` of the main process while a worker-side user remains — these two
+functions are the only places where `disk.files` shrinks).
+
+Full statement of `never_deleted_while_held`, FALSE on the pinned code (F45, `extra_reference_released_twice_counterexample`):
+  ∀ cfg ops, (runOps cfg State.init ops).bad = []
+Proved: `never_deleted_while_held_partial` under the guard "no clean-up (`_clean_temporary_resources(force=False)`)
+meets a file whose extra reference is not held" — i.e. no file is met by two non-forced clean-ups (`dup = false`;
+the extra reference is registered once per file name, `is_new_memmap`, but released by every clean-up that finds the
+file) — and `never_deleted_while_held` for the repaired code (`Cfg.fix`: `fixes/F45-*.diff`), where the guard is a
+theorem (`repaired_never_releases_twice`). -/
+
+open JoblibModel.TrackerClient
+
+/-- The composition is the tracker's own loop: the registry of the composed system is `Tracker.run` over exactly the
+lines the processes wrote, in the order they wrote them. -/
+theorem client_tracker_composed (cfg : Cfg) (ops : List Op) :
+    (runOps cfg State.init ops).reg = (run Registry.empty (runOps cfg State.init ops).sent.reverse).1 :=
+  (inv_runOps ops State.init (inv_init cfg)).wire.isRun
+
+/-- (a) Every line a client ever writes is `f"{cmd}:{name}:{rtype}\n"` for one of the three commands, type "file" or
+"folder" and an ASCII name, and the tracker's parser reads it back as that very request (`parse_send_format`). -/
+theorem client_requests_wellformed (cfg : Cfg) (ops : List Op) :
+    ∀ l ∈ (runOps cfg State.init ops).sent, ∃ c rt name, l = C20.reqLine c rt name ∧ (rt = .file ∨ rt = .folder) ∧
+      classify l = .req c rt name := by
+  intro l hl
+  obtain ⟨c, rt, name, rfl, ha, hrt⟩ := (inv_runOps ops State.init (inv_init cfg)).wire.lines l hl
+  exact ⟨c, rt, name, rfl, hrt, parse_send_format c rt name ha⟩
+
+theorem enc_inj {a b : Nat} (h : enc a = enc b) : a = b := by
+  unfold enc at h
+  by_cases ha : a = 0 <;> by_cases hb : b = 0 <;> simp [ha, hb] at h <;> omega
+
+/-- (d) The refinement: as long as no clean-up has released an extra reference that was not held, the tracker's
+count of every file is the number of its registered users in the client model (the parent's extra reference,
+pickles on their way, memmaps alive in workers, and the references that will never be given back) — in the
+registry, and as the abstract counter of `refcount_refines` over the lines written. -/
+theorem refcount_matches_users (cfg : Cfg) (ops : List Op) (f : FileKey)
+    (hd : (runOps cfg State.init ops).dup = false) :
+    lookup ((runOps cfg State.init ops).reg.get .file) f.name
+        = (if trackedUsers (runOps cfg State.init ops).toClient f = 0 then none
+           else some (trackedUsers (runOps cfg State.init ops).toClient f : Int)) ∧
+    absCount .file f.name (runOps cfg State.init ops).sent.reverse
+        = trackedUsers (runOps cfg State.init ops).toClient f := by
+  have hi := inv_runOps ops State.init (inv_init cfg)
+  have hj := (hi.cnt hd).j1 f
+  refine ⟨hj, ?_⟩
+  have hr := refcount_refines (runOps cfg State.init ops).sent.reverse .file f.name
+  rw [← hi.wire.isRun, hj] at hr
+  exact (enc_inj hr).symm
+
+/-- With the repair no clean-up ever releases an extra reference that is not held — for every operation sequence. -/
+theorem repaired_never_releases_twice (cfg : Cfg) (hfix : cfg.fix = true) (ops : List Op) :
+    (runOps cfg State.init ops).dup = false :=
+  ((inv_runOps ops State.init (inv_init cfg)).fix hfix).x0
+
+/-- (d) for the repaired code: unconditionally. -/
+theorem refcount_matches_users_repaired (cfg : Cfg) (hfix : cfg.fix = true) (ops : List Op) (f : FileKey) :
+    absCount .file f.name (runOps cfg State.init ops).sent.reverse
+        = trackedUsers (runOps cfg State.init ops).toClient f :=
+  (refcount_matches_users cfg ops f (repaired_never_releases_twice cfg hfix ops)).2
+
+/-- (b), the part that holds on the pinned code: as long as no clean-up has met a file whose extra reference was
+not held (`dup = false` at the end, hence all along), no file has left the disk while it had a live user — neither
+through the tracker (a registered user: a worker's memmap not yet collected, a pickle on its way, the extra
+reference of the living parent) nor through a `rmtree` of the main process (any worker-side user). -/
+theorem never_deleted_while_held_partial (cfg : Cfg) (ops : List Op)
+    (hd : (runOps cfg State.init ops).dup = false) : (runOps cfg State.init ops).bad = [] :=
+  ((inv_runOps ops State.init (inv_init cfg)).cnt hd).b
+
+/-- (b) for the repaired code, at full strength: for EVERY operation sequence no file leaves the disk while it has
+a live user. -/
+theorem never_deleted_while_held (cfg : Cfg) (hfix : cfg.fix = true) (ops : List Op) :
+    (runOps cfg State.init ops).bad = [] :=
+  never_deleted_while_held_partial cfg ops (repaired_never_releases_twice cfg hfix ops)
+
+/-- F45 as a program: one `Parallel` object, one worker; the array is dumped, the worker maps it and keeps it; the
+call ends (`terminate`: the extra reference is released); the same object is used again and terminated again: the
+clean-up finds the file and sends a second `MAYBE_UNLINK`. -/
+def f45Program : List Op :=
+  [.configure 0, .spawn 0, .reduce 0 ⟨1, false, false, 5000⟩, .load 0 0, .terminate 0, .configure 0, .terminate 0]
+
+def cfgPinned : Cfg := ⟨false, some 4096, 4, []⟩
+def cfgRepaired : Cfg := ⟨true, some 4096, 4, []⟩
+
+/-- (b) at full strength is FALSE on the pinned code: after `f45Program` the file `/d_k/a` has been deleted while
+worker 0 still maps it (the second `terminate` brought the count 1 → 0), and the tracker's count (0) is no longer
+the number of users (1). -/
+theorem extra_reference_released_twice_counterexample :
+    (runOps cfgPinned State.init f45Program).bad = [⟨0, 1, 1⟩] ∧
+    (runOps cfgPinned State.init f45Program).dup = true ∧
+    (runOps cfgPinned State.init f45Program).holdings = [⟨0, ⟨0, 1, 1⟩, true⟩] ∧
+    lookup ((runOps cfgPinned State.init f45Program).reg.get .file) (FileKey.mk 0 1 1).name = none ∧
+    trackedUsers (runOps cfgPinned State.init f45Program).toClient ⟨0, 1, 1⟩ = 1 := by
+  decide +kernel
+
+theorem never_deleted_while_held_fails_on_pinned :
+    ¬ ∀ ops : List Op, (runOps cfgPinned State.init ops).bad = [] := by
+  intro h
+  have := h f45Program
+  rw [extra_reference_released_twice_counterexample.1] at this
+  exact absurd this (by simp)
+
+/-- (c) EOF: whatever the history, once the last process is gone and the tracker has run its `finally:` clean-up,
+no folder and no file of any context is left under the temp root; and (`eof_deletes_rest_folders_last`) in that
+clean-up every file is removed before every folder. -/
+theorem eventually_deleted (cfg : Cfg) (ops : List Op) :
+    (eof (runOps cfg State.init ops)).disk.dirs = [] ∧ (eof (runOps cfg State.init ops)).disk.files = [] := by
+  have := eof_disk_empty (inv_runOps ops State.init (inv_init cfg))
+  rw [this]; exact ⟨rfl, rfl⟩
+
+/-- (c) the parent's own final clean-up: when the main process exits normally (its workers have left, its atexit
+callbacks run) every folder and file of every context of every manager is gone already — before EOF. -/
+theorem eventually_deleted_at_exit (cfg : Cfg) (ops : List Op)
+    (hpa : (runOps cfg State.init ops).parentAlive = true) :
+    (stepOp cfg (runOps cfg State.init ops) .exitParent).1.disk.dirs = [] ∧
+    (stepOp cfg (runOps cfg State.init ops) .exitParent).1.disk.files = [] := by
+  have h := inv_runOps ops State.init (inv_init cfg)
+  have e : (stepOp cfg (runOps cfg State.init ops) .exitParent).1 = exitParent (runOps cfg State.init ops) := by
+    simp [stepOp, Op.isWorkerOp, hpa, parentStep]
+  rw [e, exitParent_disk_empty h hpa]; exact ⟨rfl, rfl⟩
+
+/-- The invariants behind the theorems above hold after every operation sequence (what is cached is registered
+and has its atexit callback, what is on disk is registered, a memmap is held by a live worker of the owning
+executor, …): `JoblibModel.TrackerClient.Inv`. -/
+theorem client_invariants (cfg : Cfg) (ops : List Op) : Inv cfg (runOps cfg State.init ops) :=
+  inv_runOps ops State.init (inv_init cfg)
+
+/-! Non-vacuity: the same program on the repaired code — the second clean-up skips the released file, the worker
+keeps its file, the count is the number of users; after the memmap is collected the file goes, and the exit of the
+parent leaves nothing. -/
+example : (runOps cfgRepaired State.init f45Program).bad = [] ∧
+    (runOps cfgRepaired State.init f45Program).disk.files = [⟨0, 1, 1⟩] ∧
+    lookup ((runOps cfgRepaired State.init f45Program).reg.get .file) (FileKey.mk 0 1 1).name = some 1 ∧
+    trackedUsers (runOps cfgRepaired State.init f45Program).toClient ⟨0, 1, 1⟩ = 1 := by decide +kernel
+example : (runOps cfgRepaired State.init (f45Program ++ [.drop 0])).disk.files = [] ∧
+    (runOps cfgRepaired State.init (f45Program ++ [.drop 0])).disk.dirs = [⟨0, 1⟩] ∧
+    (runOps cfgRepaired State.init (f45Program ++ [.drop 0, .exitParent])).disk.dirs = [] := by decide +kernel
+-- the guard of the partial theorem is satisfiable by a history in which files are released and deleted
+example : (runOps cfgPinned State.init
+      [.configure 0, .spawn 0, .reduce 0 ⟨1, false, false, 5000⟩, .load 0 0, .drop 0, .terminate 0]).dup = false ∧
+    (runOps cfgPinned State.init
+      [.configure 0, .spawn 0, .reduce 0 ⟨1, false, false, 5000⟩, .load 0 0, .drop 0, .terminate 0]).disk.dirs = [] := by
+  decide +kernel
+-- what the client writes for the first two operations of the program
+example : (runOps cfgPinned State.init [.configure 0]).sent.reverse =
+    [C20.reqLine .register .folder (FolderKey.mk 0 0).name, C20.reqLine .register .folder (FolderKey.mk 0 1).name] := by
+  decide +kernel
 
 end C20
